@@ -69,6 +69,11 @@ CLAIMED = {
   note="Trusted: Go type checker, go/ssa, the explorer's facts and branch history; bufio.Reader.Read contract.",
   technique="path-sensitive SSA error-discipline and ordering analysis (nil-proven error returns, must-precede), custom checker",
   ref="DESIGN.md section 4 C08"),
+ "C07": dict(
+  text="Static analysis: the 64-byte log record's Encode/Decode are inverse on every field byte and agree with UpdateAofId and lockAcked's direct reads (87 obligations by layout extraction); every removal, depth change or update of a hold is logged before the shard mutex is released unless the path tested the hold as not persisted or the command is a replay; the lazy persistence hook's guards and its one-record-per-depth loop; value blobs written right after their announcing record and consumed before any skip; replayed records marked FROM_AOF and never re-logged. Numeric round trip of remaining lifetime, rotation and snapshot equality need a run and are not decided, hence 'other'.",
+  note="Trusted: Go type checker, go/ssa, the layout extractor and the explorer.",
+  technique="byte-layout writer/reader agreement + path-sensitive SSA must-log-before-release analysis, custom checker",
+  ref="DESIGN.md section 4 C07"),
 }
 
 NA = {
